@@ -737,13 +737,11 @@ UnitsPtr modelsEquivalentUnits(const ModelPtr &model, const UnitsPtr &units)
 void updateComponentsVariablesUnitsNames(const std::string &name, const ComponentPtr &component, const UnitsPtr &units)
 {
     for (size_t variableIndex = 0; variableIndex < component->variableCount(); ++variableIndex) {
+        // Note: the variables of a component that is still an import are placeholders:
+        //       the units of the real variables (which belong to the imported model and
+        //       must be left alone) are taken care of when that import is flattened.
         auto variable = component->variable(variableIndex);
-        if (component->isImport()) {
-            auto importModel = component->importSource()->model();
-            auto importComponent = importModel->component(component->importReference());
-            variable = importComponent->variable(variable->name());
-        }
-        if (variable->units()->name() == name) {
+        if (!component->isImport() && (variable->units() != nullptr) && (variable->units()->name() == name)) {
             variable->setUnits(units);
         }
     }
